@@ -191,7 +191,7 @@ Qed.
 
 (* a stretch of raw text (possibly empty) at the end of a body *)
 Lemma lb17_fin_text l T tl (ts : list tok) : span l [] (T ++ tl) -> l_dd l = false -> LexBodyText.plain T ->
-  Forall (fun c => c <> 47%N) T -> tag_or_end tl ->
+  lb17_one_piece T -> tag_or_end tl ->
   (if droppable T then ts = [] else exists p, ts = [tk pit_Text p T]) ->
   lb17_fin tl ts LText l.
 Proof.
